@@ -209,6 +209,12 @@ func dateSpecs(thorough bool) []spec {
 		triples = sub
 	}
 	mk("datetime", 6, func(x tr) string { return "datetime='" + x.d + "," + x.m + "," + x.t + "'" }, triples)
+	// the defaults and partly specified separators again, after every custom triple has been used in this process
+	mk("datetime-default-again", 6, func(tr) string { return "datetime" }, []tr{{"-", " ", ":"}})
+	mk("datetime-date-separator-only", 6, func(x tr) string { return "datetime=" + q(x.d) }, []tr{{"/", " ", ":"}, {".", " ", ":"}, {"-", " ", ":"}})
+	mk("datetime-two-separators", 6, func(x tr) string { return "datetime='" + x.d + "," + x.m + "'" }, []tr{{"/", "_", ":"}, {"-", " ", ":"}})
+	mk("date-default-again", 3, func(tr) string { return "date" }, []tr{{"-", "", ""}})
+	mk("year2month-default-again", 2, func(tr) string { return "year2month" }, []tr{{"-", "", ""}})
 	return out
 }
 
@@ -299,6 +305,13 @@ func specs(c *runner.Ctx) []spec {
 		spec{space: "ipv4/edits", rule: "ipv4", rec: strRec2(ipv4Only), gen: genEdits(ipSeeds...)},
 		spec{space: "ipv6/strings", rule: "ipv6", rec: strRec2(ipv6Only), gen: genStrings(ipAlpha, n(6, 7))},
 		spec{space: "ipv6/edits", rule: "ipv6", rec: strRec2(ipv6Only), gen: genEdits(ipSeeds...)},
+	)
+	// zone-suffixed literals are not part of the RFC 4291 text form
+	zones := genList("fe80::1%eth0", "::1%1", "fe80::%0", "1.2.3.4%eth0", "fe80::1%", "%eth0", "::%25eth0")
+	out = append(out,
+		spec{space: "ip/zones", rule: "ip", rec: strRec2(lang.IP), gen: zones},
+		spec{space: "ipv6/zones", rule: "ipv6", rec: strRec2(ipv6Only), gen: zones},
+		spec{space: "ipv4/zones", rule: "ipv4", rec: strRec2(ipv4Only), gen: zones},
 	)
 	out = append(out, dateSpecs(th)...)
 	// in / include
